@@ -1807,6 +1807,32 @@ class VG:
             return unk('dead')
         return acc
 
+    def _closure_assigned_locals(self, node):
+        """ids of locals bound outside the closure that its body assigns (captured by mutable reference)."""
+        inside = set()
+        for p_ in node.get('params', []):
+            inside |= {i for i, _ in _pat_ids(p_)}
+        for n in walk(node['body']):
+            if n.get('k') in ('let', 'for') and 'pat' in n:
+                inside |= {i for i, _ in _pat_ids(n['pat'])}
+            if n.get('k') == 'closure':
+                for p_ in n.get('params', []):
+                    inside |= {i for i, _ in _pat_ids(p_)}
+        out = set()
+        for n in walk(node['body']):
+            tgt = None
+            if n.get('k') in ('assign', 'assignop'):
+                tgt = strip(n['l'])
+            elif n.get('k') == 'call' and 'method' in n and n.get('recv_ty_adj', '').startswith('&mut') and n.get('args'):
+                tgt = strip(n['args'][0])
+            elif n.get('k') == 'addr' and n.get('mut'):
+                tgt = strip(n.get('e', {}))
+            while tgt is not None and tgt.get('k') in ('index', 'field'):
+                tgt = strip(tgt['base'])
+            if tgt is not None and tgt.get('k') == 'local' and tgt['id'] not in inside:
+                out.add(tgt['id'])
+        return out
+
     def seq_place(self, e, fr):
         """Place of the receiver sequence of a method call (for mutation)."""
         recv = e['args'][0]
@@ -2013,6 +2039,20 @@ class VG:
                 item = self.deref(item) if not (isinstance(item, tuple) and item and item[0] == 'tuple') else item
                 ok = True
                 keep = []
+                # locals of the enclosing function that the closures assign are carried by the synthesised loop
+                cap_inits = {}
+                for cl_ in [c_ for _, c_ in maps] + [a_ for a_ in argv[1:]]:
+                    if isinstance(cl_, tuple) and cl_ and cl_[0] == 'closure':
+                        for lid in self._closure_assigned_locals(cl_[2]):
+                            if lid in fr.locals and lid not in cap_inits:
+                                cap_inits[lid] = fr.locals[lid]
+                                fr.locals[lid] = ('mu', L, ('local', lid))
+
+                def close_captured():
+                    for lid, i0 in cap_inits.items():
+                        n0 = fr.locals.get(lid)
+                        info['carried'][('local', lid)] = (i0, n0)
+                        fr.locals[lid] = ('fold', L, ('local', lid), i0, n0)
                 for kind_, cl in reversed(maps):
                     if isinstance(cl, tuple) and cl[0] == 'closure':
                         if kind_ == 'map':
@@ -2039,6 +2079,7 @@ class VG:
                         if isinstance(nx, tuple) and nx and nx[0] == 'tuple' and len(nx[1]) == len(keys):
                             self.loop_stack.pop()
                             self.pc = saved_pc
+                            close_captured()
                             for k_, i0, n0 in zip(keys, init[1], nx[1]):
                                 info['carried'][k_] = (d(i0), d(n0))
                             return ('tuple', tuple(('fold', L, k_, d(i0), d(n0)) for k_, i0, n0 in zip(keys, init[1], nx[1])))
@@ -2051,6 +2092,7 @@ class VG:
                     init = nxt = unk('iter-' + short)
                 self.loop_stack.pop()
                 self.pc = saved_pc
+                close_captured()
                 if any(fields_before.get(k_, ('in', k_)) != t_ for k_, t_ in self.fields.items()):
                     # a closure passed to an iterator adaptor wrote a field: that is a loop-carried effect this synthesis does not model
                     self.fields = fields_before
